@@ -600,7 +600,10 @@ def rule_guards(facts, rep):
         rep.check(d is not None, "guards", b["path"], f"{fld[0]}-{'store' if is_store else 'read'}@{arm_of(h['frames'])}:{hirpp.expr(n['i'])[:40]}".replace(" ", "_"),
                   f"self.{fld[0]}[{hirpp.expr(n['i'])[:40]}] must be provably inside the array ({'the limit of ' + ('2 intermediates' if fld[0] == 'intermediates' else '16 OSC parameters')}): "
                   f"{d[1] if d else 'no proof — the guard against the limit is missing or too weak'}", loc(b, n))
-    rep.check(n_idx["intermediates"] >= 1 and n_idx["osc_params"] >= 2, "guards", b["path"], "bounded-array-sites", f"{n_idx}", loc(b))
+    checked_access = [n for n in hir.walk(b["hir"]) if n.get("k") == "call" and hir.callee(n).split("::")[-1] in ("get", "get_mut") and n.get("args")
+                      and self_field(hir.peel(hir.simp(n["args"][0])), "intermediates")]
+    rep.check((n_idx["intermediates"] >= 1 or checked_access) and n_idx["osc_params"] >= 2, "guards", b["path"], "bounded-array-sites",
+              f"{n_idx}, checked accesses to intermediates: {len(checked_access)}", loc(b))
     for n in hir.walk(b["hir"]):
         if n.get("k") in ("assign", "assignop") and (self_field(n["l"], "intermediate_idx") or self_field(n["l"], "osc_num_params")):
             fld = "intermediate_idx" if self_field(n["l"], "intermediate_idx") else "osc_num_params"
@@ -615,14 +618,40 @@ def rule_guards(facts, rep):
             rep.check(iv is not None and lo <= iv[0] and iv[1] <= hi, "guards", b["path"],
                       f"{fld}-stays-within-{hi}@{arm_of(frames[0] if frames else [])}:{hirpp.expr(n)[:40]}".replace(" ", "_"),
                       f"{fld} is only advanced below its limit {hi}: stored value in {iv}", loc(b, n))
-    ifs = [n for n in hir.walk(tbl["Collect"]["body"]) if n.get("k") == "if" and (inter_full(n["c"]) or
-           (hir.simp(n["c"]).get("k") == "bin" and hir.simp(n["c"])["op"] in ("Eq", "Ge") and self_field(hir.simp(n["c"])["l"], "intermediate_idx")))]
-    ok = len(ifs) == 1
-    if ok:
-        t = hir.stmts_of(ifs[0]["t"])
-        ok = (len(t) == 1 and t[0].get("k") == "assign" and self_field(t[0]["l"], "ignoring") and hir.lit_val(t[0]["r"]) is True)
+    # the Collect arm by abstract evaluation for each value of the counter: below the limit the byte is stored at the counter's
+    # slot and the counter advances; at the limit nothing is stored and the overflow flag is set — an `if idx == MAX`, a checked
+    # `get_mut`, a match on the counter all evaluate alike
+    import abseval
+    ok, why = True, ""
+    lim = C04.FIELD_INV[("anstyle_parse::Parser", "intermediate_idx")][1]
+    for idx in range(0, lim + 1):
+        stored, asked = [], []
+
+        def checked(a_, asked=asked):
+            asked.append(a_[1])
+            return ("some", ("slot", a_[1])) if a_[1][0] == "int" and a_[1][1] < lim else ("none",)
+        ev = abseval.Evaluator(facts, cp.CRATE, {"store:self.intermediates": lambda a_, stored=stored: stored.append((a_[0], a_[1])),
+                                                 "core::slice::<impl [T]>::get_mut": checked})
+        env = abseval.Env()
+        env.update({"self": ("sym", "self"), "self.intermediate_idx": ("int", idx), "self.intermediates": ("sym", "intermediates"),
+                    "self.ignoring": ("sym", "ignoring-before"), "byte": ("sym", "byte"), "performer": ("sym", "performer")})
+        try:
+            try:
+                ev.ev(tbl["Collect"]["body"], env)
+            except abseval.Return:
+                pass
+            via_slot = [(asked[0], v) for (k_, v) in ev.stores if not str(k_).startswith("self.") and v == ("sym", "byte") and len(asked) == 1]
+            writes = stored + via_slot
+            if idx < lim:
+                good = writes == [(("int", idx), ("sym", "byte"))] and env["self.intermediate_idx"] == ("int", idx + 1) and env["self.ignoring"] == ("sym", "ignoring-before")
+            else:
+                good = not writes and env["self.intermediate_idx"] == ("int", idx) and env["self.ignoring"] == ("bool", True)
+            if not good:
+                ok, why = False, f"counter {idx}: writes {writes}, counter becomes {env['self.intermediate_idx']}, ignoring {env['self.ignoring']}"
+        except Unrecognised as ex:
+            ok, why = False, f"counter {idx}: not evaluable: {ex}"
     rep.check(ok, "guards", b["path"], "collect-overflow-sets-ignoring",
-              "a third intermediate sets the overflow flag; otherwise store then idx += 1", loc(b, tbl["Collect"]))
+              f"a third intermediate sets the overflow flag and is dropped; otherwise it is stored at the counter and the counter advances {why}", loc(b, tbl["Collect"]))
     rep.count(n_sites)
 
 
